@@ -414,17 +414,29 @@ func runC17(r *hx.Run, replay string) {
 			cs.Initial = append(cs.Initial, c17Stored{ID: j + 1, Path: hx.Pick(rr, []string{"rules/a.yml", "rules/b.yml"}), Line: 1 + rr.Intn(25),
 				Text: hx.Pick(rr, []string{"a human wrote this", "LGTM", "old pint comment"}), Mine: rr.Intn(2) == 0})
 		}
+		if rr.Intn(2) == 0 {
+			// comments a previous pint run left for some of the first round's problems (any positions)
+			for j, p := range reporter.VerifMakeComments(reporter.NewSummary(c17ToReports(cur)), false) {
+				if rr.Intn(2) == 0 {
+					path, text, line, _ := reporter.VerifPendingFields(p)
+					cs.Initial = append(cs.Initial, c17Stored{ID: 100 + j, Path: path, Line: line, Text: text, Mine: true})
+				}
+			}
+		}
 		for ri, n := 0, 1+rr.Intn(5); ri < n; ri++ {
 			cs.Rounds = append(cs.Rounds, append([]c17Report{}, cur...))
-			// evolve: problems disappear, appear, move
-			switch rr.Intn(4) {
+			// evolve: problems disappear, appear (anywhere in the report order), move, get reordered
+			switch rr.Intn(5) {
 			case 0:
 				if len(cur) > 0 {
 					k := rr.Intn(len(cur))
 					cur = append(cur[:k:k], cur[k+1:]...)
 				}
 			case 1:
-				cur = append(cur, c17RandReport(r))
+				k := rr.Intn(len(cur) + 1)
+				cur = append(cur[:k:k], append([]c17Report{c17RandReport(r)}, cur[k:]...)...)
+			case 3:
+				rr.Shuffle(len(cur), func(i, j int) { cur[i], cur[j] = cur[j], cur[i] })
 			case 2:
 				if len(cur) > 0 {
 					k := rr.Intn(len(cur))
